@@ -311,7 +311,7 @@ type Directed struct {
 }
 
 func st(n int, p Plan) Op { return Op{Kind: "store", N: n, Plan: p} }
-func rv(n int) Op        { return Op{Kind: "revert", N: n} }
+func rv(n int) Op         { return Op{Kind: "revert", N: n} }
 func qu(f Filt, from, to, chunk, limit int) Op {
 	return Op{Kind: "query", Q: &Q{F: f, From: from, To: to, Chunk: chunk, Limit: limit}}
 }
@@ -327,12 +327,12 @@ func directed() []Directed {
 	return []Directed{
 		{Name: "L2-cache-warmed-then-reorg-across-window-boundary", Near: true, Probe: "cache", Ops: func(h int) []Op {
 			return []Op{
-				st(W+1-h, nil),             // blocks .. W (head W)
-				qu(filtA, 0, W, 3, 0),      // warms the cache with window 0
-				rv(2),                      // head W-2
-				st(1, evB), st(1, nil),     // W-1' carries B, W'
-				qu(filtB, 0, W, 3, 0),      // must return the events of W-1'
-				qu(filtB, W-1, W-1, 1, 1),  // single block, paged
+				st(W+1-h, nil),         // blocks .. W (head W)
+				qu(filtA, 0, W, 3, 0),  // warms the cache with window 0
+				rv(2),                  // head W-2
+				st(1, evB), st(1, nil), // W-1' carries B, W'
+				qu(filtB, 0, W, 3, 0),     // must return the events of W-1'
+				qu(filtB, W-1, W-1, 1, 1), // single block, paged
 				qu(filtA, 0, W, 100, 0),
 			}
 		}},
@@ -341,8 +341,8 @@ func directed() []Directed {
 				st(5, nil), st(1, evA), st(15, nil), // 21 blocks
 				{Kind: "snap"}, {Kind: "restart"},
 				rv(2), st(1, evB), st(1, nil), // 19' carries B
-				qu(filtB, 0, 20, 2, 0),     // live instance
-				{Kind: "restart"},          // ungraceful: no new snapshot
+				qu(filtB, 0, 20, 2, 0), // live instance
+				{Kind: "restart"},      // ungraceful: no new snapshot
 				qu(filtB, 0, 20, 2, 0),
 				qu(filtA, 0, 20, 2, 0),
 			}
